@@ -22,92 +22,136 @@ Proof.
   intros i j Hi Hj. apply in_seq in Hi. apply in_seq in Hj. apply H; lia.
 Qed.
 
-(* ------------------------------------------------------------------ slice_generator, one or two axes *)
-Lemma sg_xs_1 a n : sg_xs [a] n = [(n / 1) mod (1 * a)].
-Proof. reflexivity. Qed.
-Lemma sg_xs_2 a b n : sg_xs [a; b] n = [(n / 1) mod (1 * a); (n / (1 * a)) mod (1 * a * b)].
-Proof. reflexivity. Qed.
-Lemma doc_index_1 a n : doc_index [a] n = [(n / 1) mod a].
-Proof. reflexivity. Qed.
-Lemma doc_index_2 a b n : doc_index [a; b] n = [(n / 1) mod a; (n / (1 * a)) mod b].
-Proof. reflexivity. Qed.
-Lemma seq_prod_1 a : seq_prod [a] = 1 * a.
-Proof. reflexivity. Qed.
-Lemma seq_prod_2 a b : seq_prod [a; b] = 1 * a * b.
-Proof. reflexivity. Qed.
+(* ------------------------------------------------------------------ slice_generator, ANY number of axes *)
+(* mixed-radix digits, least significant first ("first axis is fastest changing") *)
+Fixpoint mr (lens : list nat) (n : nat) : list nat :=
+  match lens with
+  | [] => []
+  | a :: r => n mod a :: mr r (n / a)
+  end.
+Fixpoint unmr (lens t : list nat) : nat :=
+  match lens, t with
+  | a :: r, i :: t' => i + a * unmr r t'
+  | _, _ => 0
+  end.
+Fixpoint digits (acc : nat) (lens : list nat) (n : nat) : list nat :=
+  match lens with
+  | [] => []
+  | a :: r => (n / acc) mod a :: digits (acc * a) r n
+  end.
+Fixpoint pairs (acc : nat) (lens : list nat) : list (nat * nat) :=
+  match lens with
+  | [] => []
+  | a :: r => (acc, a) :: pairs (acc * a) r
+  end.
 
-Lemma Forall2_lt_1 t a : Forall2 lt t [a] -> exists i, t = [i] /\ i < a.
+(* zip(divs, axis_lens) with divs = [1] + cumprod[:-1]: the divisor of axis j is the product of the earlier lengths *)
+Lemma divs_combine acc lens :
+  combine (acc :: removelast (cumprod_from acc lens)) lens = pairs acc lens.
 Proof.
-  intros H. inversion H as [|x y l l' Hxy Hll]; subst. inversion Hll; subst. exists x. auto.
-Qed.
-Lemma Forall2_lt_2 t a b : Forall2 lt t [a; b] -> exists i j, t = [i; j] /\ i < a /\ j < b.
-Proof.
-  intros H. inversion H as [|x y l l' Hxy Hll]; subst.
-  apply Forall2_lt_1 in Hll. destruct Hll as [j [-> Hj]]. exists x, j. auto.
-Qed.
-
-(* below nmax the code's index equals the documented mixed-radix digit (1 axis) *)
-Lemma sg_small_1 a n : n < a -> sg_xs [a] n = [n] /\ doc_index [a] n = [n].
-Proof.
-  intros H. rewrite sg_xs_1, doc_index_1, Nat.mul_1_l, Nat.div_1_r, Nat.mod_small by lia. auto.
-Qed.
-
-(* ... and for 2 axes: x0 = n mod a, x1 = n / a *)
-Lemma sg_small_2 a b n : n < a * b ->
-  sg_xs [a; b] n = [n mod a; n / a] /\ doc_index [a; b] n = [n mod a; n / a].
-Proof.
-  intros H. rewrite sg_xs_2, doc_index_2, !Nat.mul_1_l, Nat.div_1_r.
-  assert (Ha : a <> 0) by (intros ->; lia).
-  assert (Hq : n / a < b) by (apply Nat.div_lt_upper_bound; lia).
-  rewrite (Nat.mod_small (n / a) (a * b)) by nia.
-  rewrite (Nat.mod_small (n / a) b) by lia. auto.
+  revert acc; induction lens as [|a r IH]; intros acc; [reflexivity|].
+  cbn [cumprod_from pairs]. destruct r as [|b r'].
+  - reflexivity.
+  - change (removelast (acc * a :: cumprod_from (acc * a) (b :: r')))
+      with (acc * a :: removelast (cumprod_from (acc * a) (b :: r'))).
+    cbn [combine]. f_equal. apply IH.
 Qed.
 
-Lemma slice_generator_bijective_proof : forall lens,
-  length lens = 1 \/ length lens = 2 ->
+Lemma sg_xs_digits lens n : sg_xs lens n = digits 1 lens n.
+Proof.
+  unfold sg_xs, sg_divs, cumprod. rewrite divs_combine.
+  generalize 1 as acc. induction lens as [|a r IH]; intros acc; [reflexivity|].
+  cbn [pairs map digits fst snd]. unfold sg_x at 1. f_equal. apply IH.
+Qed.
+
+Lemma fold_mul_acc l acc : fold_left Nat.mul l acc = acc * fold_left Nat.mul l 1.
+Proof.
+  revert acc; induction l as [|x l IH]; intros acc; cbn [fold_left]; [lia|].
+  rewrite IH, (IH (1 * x)). lia.
+Qed.
+Lemma seq_prod_cons a r : seq_prod (a :: r) = a * seq_prod r.
+Proof. unfold seq_prod. simpl. rewrite fold_mul_acc. lia. Qed.
+
+(* the code's indices are the documented digits, for EVERY step n *)
+Lemma digits_doc lens n : forall acc,
+  digits acc lens n
+  = map (fun j => (n / (acc * seq_prod (firstn j lens))) mod nth j lens 0) (seq 0 (length lens)).
+Proof.
+  induction lens as [|a r IH]; intros acc; [reflexivity|].
+  cbn [digits length seq map firstn nth]. f_equal.
+  - change (seq_prod []) with 1. now rewrite Nat.mul_1_r.
+  - rewrite IH, <- seq_shift, map_map. apply map_ext. intros j.
+    cbn [firstn nth]. rewrite seq_prod_cons. f_equal. f_equal. lia.
+Qed.
+
+Lemma sg_xs_doc lens n : sg_xs lens n = doc_index lens n.
+Proof.
+  rewrite sg_xs_digits, digits_doc. unfold doc_index, doc_digit. apply map_ext. intros j.
+  now rewrite Nat.mul_1_l.
+Qed.
+
+Lemma digits_mr lens : forall acc n, acc <> 0 -> digits acc lens n = mr lens (n / acc).
+Proof.
+  induction lens as [|a r IH]; intros acc n Hacc; [reflexivity|].
+  cbn [digits mr]. f_equal.
+  destruct (Nat.eq_dec a 0) as [->|Ha].
+  - rewrite Nat.mul_0_r. clear IH.
+    (* with a zero extent both sides only see quotients by 0 (= 0 in Coq; the loop is empty in Python) *)
+    assert (E : forall l m, digits 0 l m = mr l 0).
+    { induction l as [|x l IHl]; intros m; [reflexivity|]. cbn [digits mr]. simpl (0 * x).
+      rewrite IHl. destruct x; reflexivity. }
+    rewrite E. simpl. reflexivity.
+  - rewrite IH by lia. now rewrite Nat.div_div by assumption.
+Qed.
+
+Lemma sg_xs_mr lens n : sg_xs lens n = mr lens n.
+Proof. rewrite sg_xs_digits, digits_mr by lia. now rewrite Nat.div_1_r. Qed.
+
+Lemma mr_in_range lens : forall n, n < seq_prod lens -> Forall2 lt (mr lens n) lens.
+Proof.
+  induction lens as [|a r IH]; intros n Hn; [constructor|].
+  rewrite seq_prod_cons in Hn. assert (Ha : a <> 0) by (intros ->; lia).
+  cbn [mr]. constructor.
+  - now apply Nat.mod_upper_bound.
+  - apply IH. apply Nat.div_lt_upper_bound; [assumption|lia].
+Qed.
+
+Lemma unmr_mr lens : forall n, n < seq_prod lens -> unmr lens (mr lens n) = n.
+Proof.
+  induction lens as [|a r IH]; intros n Hn.
+  - unfold seq_prod in Hn. simpl in *. lia.
+  - rewrite seq_prod_cons in Hn. assert (Ha : a <> 0) by (intros ->; lia).
+    cbn [mr unmr]. rewrite IH by (apply Nat.div_lt_upper_bound; [assumption|lia]).
+    rewrite (Nat.div_mod n a Ha) at 3. lia.
+Qed.
+
+Lemma mr_unmr lens : forall t, Forall2 lt t lens ->
+  unmr lens t < seq_prod lens /\ mr lens (unmr lens t) = t.
+Proof.
+  induction lens as [|a r IH]; intros t H; inversion H as [|i a' t' r' Hi Ht]; subst.
+  - split; [unfold seq_prod; simpl; lia|reflexivity].
+  - destruct (IH t' Ht) as [Hlt E]. rewrite seq_prod_cons. cbn [unmr mr]. split; [nia|].
+    f_equal.
+    + rewrite Nat.mul_comm, Nat.mod_add by lia. now apply Nat.mod_small.
+    + rewrite Nat.mul_comm, Nat.div_add by lia. rewrite Nat.div_small by assumption. exact E.
+Qed.
+
+Lemma slice_generator_bijective_proof : forall lens : list nat,
   let idxs := map (sg_xs lens) (seq 0 (seq_prod lens)) in
-  (forall n, n < seq_prod lens -> sg_xs lens n = doc_index lens n) /\
+  (forall n, sg_xs lens n = doc_index lens n) /\
   NoDup idxs /\
   (forall t, In t idxs <-> Forall2 lt t lens).
 Proof.
-  intros lens Hlen.
-  destruct lens as [|a [|b [|c r]]]; simpl in Hlen; try lia.
-  - (* one axis *)
-    cbv zeta. rewrite seq_prod_1, Nat.mul_1_l.
-    split; [|split].
-    + intros n Hn. destruct (sg_small_1 a n Hn) as [E1 E2]. congruence.
-    + apply NoDup_map_seq. intros i j Hi Hj E.
-      destruct (sg_small_1 a i Hi) as [Ei _]. destruct (sg_small_1 a j Hj) as [Ej _]. congruence.
-    + intros t. rewrite in_map_iff. split.
-      * intros [n [E Hn]]. apply in_seq in Hn. destruct (sg_small_1 a n) as [En _]; [lia|].
-        rewrite En in E. subst t. repeat constructor. lia.
-      * intros HF. apply Forall2_lt_1 in HF. destruct HF as [i [-> Hi]].
-        exists i. split; [destruct (sg_small_1 a i Hi) as [E _]; exact E|apply in_seq; lia].
-  - (* two axes *)
-    cbv zeta. rewrite seq_prod_2, Nat.mul_1_l.
-    split; [|split].
-    + intros n Hn. destruct (sg_small_2 a b n Hn) as [E1 E2]. congruence.
-    + apply NoDup_map_seq. intros i j Hi Hj E.
-      destruct (sg_small_2 a b i Hi) as [Ei _]. destruct (sg_small_2 a b j Hj) as [Ej _].
-      rewrite Ei, Ej in E. inversion E as [[E0 E1]].
-      assert (Ha : a <> 0) by (intros ->; lia).
-      rewrite (Nat.div_mod i a Ha), (Nat.div_mod j a Ha). congruence.
-    + intros t. rewrite in_map_iff. split.
-      * intros [n [E Hn]]. apply in_seq in Hn. destruct (sg_small_2 a b n) as [En _]; [lia|].
-        rewrite En in E. subst t.
-        assert (Ha : a <> 0) by (intros ->; lia).
-        repeat constructor.
-        -- apply Nat.mod_upper_bound; assumption.
-        -- apply Nat.div_lt_upper_bound; lia.
-      * intros HF. apply Forall2_lt_2 in HF. destruct HF as [i [j [-> [Hi Hj]]]].
-        exists (i + j * a). split.
-        -- destruct (sg_small_2 a b (i + j * a)) as [En _]; [nia|]. rewrite En.
-           rewrite Nat.mod_add, Nat.div_add, Nat.mod_small, Nat.div_small by lia.
-           reflexivity.
-        -- apply in_seq. nia.
+  intros lens. cbv zeta. split; [apply sg_xs_doc|split].
+  - apply NoDup_map_seq. intros i j Hi Hj E. rewrite !sg_xs_mr in E.
+    rewrite <- (unmr_mr lens i Hi), <- (unmr_mr lens j Hj). now rewrite E.
+  - intros t. rewrite in_map_iff. split.
+    + intros [n [E Hn]]. apply in_seq in Hn. subst t. rewrite sg_xs_mr. apply mr_in_range. lia.
+    + intros H. destruct (mr_unmr lens t H) as [Hlt E]. exists (unmr lens t).
+      split; [now rewrite sg_xs_mr|apply in_seq; lia].
 Qed.
 
-(* the assembled index tuples are accepted by numpy: no IndexError for one or two axes *)
+(* the assembled index tuples are accepted by numpy: no IndexError, any number of axes *)
 Lemma idx_ok_set_nth shape t k v :
   idx_ok shape t = true -> v < nth k shape 0 -> idx_ok shape (set_nth k (Z.of_nat v) t) = true.
 Proof.
@@ -131,51 +175,64 @@ Proof.
   induction 1 as [|t l Ht _ IH]; simpl; [auto|]. rewrite Ht. simpl. destruct IH as [-> ->]. auto.
 Qed.
 
+Lemma idx_ok_fold shape axes : forall xs t,
+  Forall2 (fun x a => x < nth a shape 0) xs axes -> idx_ok shape t = true ->
+  idx_ok shape (fold_left (fun t ax => set_nth (fst ax) (Z.of_nat (snd ax)) t) (combine axes xs) t) = true.
+Proof.
+  induction axes as [|a axes IH]; intros xs t H Ht; [exact Ht|].
+  inversion H as [|x a' xs' axes' Hx Hr]; subst. cbn [combine fold_left fst snd].
+  apply IH; [assumption|]. now apply idx_ok_set_nth.
+Qed.
+
 Lemma slice_generator_no_error_proof : forall (shape : list nat) (flat : list Z) (axes : list nat),
-  length axes = 1 \/ length axes = 2 ->
-  Forall (fun a => a < length shape) axes ->
   snd (take_ok shape flat (sg_tuples shape axes)) = false /\
   map fst (fst (take_ok shape flat (sg_tuples shape axes))) = sg_tuples shape axes.
 Proof.
-  intros shape flat axes Hlen Hax. apply take_ok_all.
+  intros shape flat axes. apply take_ok_all.
   unfold sg_tuples. apply Forall_forall. intros t Ht. apply in_map_iff in Ht.
   destruct Ht as [n [E Hn]]. apply in_seq in Hn. subst t.
-  destruct axes as [|a [|b [|c r]]]; simpl in Hlen; try lia.
-  - cbn [map] in *. rewrite seq_prod_1, Nat.mul_1_l in Hn.
-    destruct (sg_small_1 (nth a shape 0) n) as [E _]; [lia|]. rewrite E.
-    cbn. apply idx_ok_set_nth; [apply idx_ok_whole|lia].
-  - cbn [map] in *. rewrite seq_prod_2, Nat.mul_1_l in Hn.
-    destruct (sg_small_2 (nth a shape 0) (nth b shape 0) n) as [E _]; [lia|]. rewrite E.
-    assert (Ha : nth a shape 0 <> 0) by (intros E0; rewrite E0 in Hn; lia).
-    cbn. apply idx_ok_set_nth; [apply idx_ok_set_nth; [apply idx_ok_whole|]|].
-    + apply Nat.mod_upper_bound; assumption.
-    + apply Nat.div_lt_upper_bound; lia.
+  unfold sg_slices. apply idx_ok_fold; [|apply idx_ok_whole].
+  rewrite sg_xs_mr.
+  assert (H := mr_in_range (map (fun a => nth a shape 0) axes) n ltac:(lia)).
+  clear Hn. revert H. generalize (mr (map (fun a => nth a shape 0) axes) n) as xs.
+  induction axes as [|a axes IH]; intros xs H; inversion H; subst; constructor; auto.
 Qed.
 
-(* ------------------------------------------------------------------ three or more axes: refuted *)
-Lemma slice_generator_three_axes_refuted_proof :
-  exists (lens : list nat) (n j : nat),
-    length lens = 3 /\ n < seq_prod lens /\ j < 3 /\
-    nth j lens 0 <= nth j (sg_xs lens n) 0 /\          (* index out of range for its axis ... *)
-    nth j (sg_xs lens n) 0 <> doc_digit lens j n /\     (* ... and not the documented digit *)
-    (* the whole run on np.arange(12).reshape(2,2,3), axis=[0,1,2]: four items, then IndexError *)
-    sg_list [2; 2; 3] (map Z.of_nat (seq 0 12)) [0; 1; 2]%Z
-    = ([([0; 0; 0], [0]); ([1; 0; 0], [6]); ([0; 1; 0], [3]); ([1; 1; 0], [9])]%Z, true).
+(* ------------------------------------------------------------------ int axis, negative included *)
+Lemma idx_ok_prefix shape : forall k j, j < nth k shape 0 ->
+  idx_ok shape (repeat whole k ++ [Z.of_nat j]) = true.
 Proof.
-  exists [2; 2; 3], 4, 1. repeat split; vm_compute; try lia; try reflexivity.
+  induction shape as [|s sr IH]; intros k j Hj.
+  - destruct k; simpl in Hj; lia.
+  - destruct k as [|k]; cbn [repeat app idx_ok nth] in *.
+    + apply andb_true_iff. split; [apply Z.ltb_lt; lia|destruct sr; reflexivity].
+    + apply andb_true_iff. split; [apply Z.ltb_lt; unfold whole; lia|now apply IH].
 Qed.
 
-(* smallest failing array: arange(4).reshape(1,2,2), axis=[1,0,2] - a middle axis of length 1 *)
-Lemma slice_generator_three_axes_smallest :
-  sg_list [1; 2; 2] (map Z.of_nat (seq 0 4)) [1; 0; 2]%Z = ([([0; 0; 0], [0]); ([0; 1; 0], [2])]%Z, true).
-Proof. vm_compute. reflexivity. Qed.
+Lemma norm_axis_nonneg ndim k : k < ndim -> norm_axis ndim (Z.of_nat k) = Some k.
+Proof.
+  intros H. unfold norm_axis.
+  replace ((0 <=? Z.of_nat k) && (Z.of_nat k <? Z.of_nat ndim))%Z with true
+    by (symmetry; apply andb_true_iff; split; [apply Z.leb_le|apply Z.ltb_lt]; lia).
+  now rewrite Nat2Z.id.
+Qed.
 
-(* int branch with a negative axis slices axis 0 instead, and runs out of range *)
-Lemma slice_generator_negative_int_axis_refuted_proof :
-  exists (shape : list nat) (axis : Z), (axis < 0)%Z /\ norm_axis (length shape) axis = Some 1 /\
-    sg_int shape (map Z.of_nat (seq 0 2)) axis = ([([0], [0; 1])]%Z, true) /\
-    sg_int shape (map Z.of_nat (seq 0 2)) 1%Z = ([([whole; 0], [0]); ([whole; 1], [1])]%Z, false).
-Proof. exists [1; 2], (-1)%Z. vm_compute. repeat split; reflexivity. Qed.
+Lemma slice_generator_int_axis_proof : forall (shape : list nat) (flat : list Z) (k : nat),
+  k < length shape ->
+  let r := sg_int shape flat (Z.of_nat k) in
+  sg_int shape flat (Z.of_nat k - Z.of_nat (length shape)) = r /\
+  snd r = false /\
+  map fst (fst r) = map (fun j => repeat whole k ++ [Z.of_nat j]) (seq 0 (nth k shape 0)).
+Proof.
+  intros shape flat k Hk. cbv zeta. unfold sg_int.
+  destruct (Z.ltb_spec (Z.of_nat k - Z.of_nat (length shape)) 0) as [_|H]; [|lia].
+  replace (Z.of_nat k - Z.of_nat (length shape) + Z.of_nat (length shape))%Z with (Z.of_nat k) by lia.
+  destruct (Z.ltb_spec (Z.of_nat k) 0) as [H|_]; [lia|].
+  split; [reflexivity|].
+  rewrite norm_axis_nonneg by assumption. unfold sg_int_tuples. rewrite Nat2Z.id.
+  apply take_ok_all. apply Forall_forall. intros t Ht. apply in_map_iff in Ht.
+  destruct Ht as [j [<- Hj]]. apply in_seq in Hj. apply idx_ok_prefix. lia.
+Qed.
 
 (* ------------------------------------------------------------------ parcels *)
 Lemma insert_u_In x y l : In y (insert_u x l) <-> y = x \/ In y l.
